@@ -2,26 +2,31 @@
 C03 — Boolean operations on automata compute the set-theoretic result.
 -/
 import Pfl.Proofs.FABase
+import Pfl.Proofs.FABool
 namespace Pfl
 namespace ENFA
 variable {σ τ : Type} [DecidableEq σ] [DecidableEq τ]
 
 theorem inter_lang (A : ENFA σ) (B : ENFA τ) (hA : A.WF) (hB : B.WF) (fuel : Nat)
     (P : ENFA (σ × τ)) (h : A.inter B fuel = some P) (w : List Nat) :
-    P.Lang w ↔ A.Lang w ∧ B.Lang w := by
-  sorry
+    P.Lang w ↔ A.Lang w ∧ B.Lang w :=
+  inter_lang_aux A B hA hB fuel P h w
 
 /-- flip-and-complete is the complement relative to the automaton's own alphabet, for
 deterministic automata with a start state and a fresh trash state -/
 theorem complementRaw_lang (A : ENFA σ) (hA : A.WF) (hd : A.Deterministic)
     (hs : A.starts ≠ []) (trash : σ) (ht : trash ∉ A.states) (w : List Nat) :
-    (A.complementRaw A.copyE trash).Lang w ↔ (∀ a ∈ w, a ∈ A.syms) ∧ ¬ A.Lang w := by
-  sorry
+    (A.complementRaw A.copyE trash).Lang w ↔ (∀ a ∈ w, a ∈ A.syms) ∧ ¬ A.Lang w :=
+  complementRaw_core A A.copyE hA hd hs trash ht
+    (fun q => mem_ofParts_starts _ _ _ q) (fun q => mem_ofParts_finals _ _ _ q)
+    (mem_copyE_delta A hA) w
 
 theorem complementRaw_lang_dfa (A : ENFA σ) (hA : A.WF) (hd : A.Deterministic) (he : A.EpsFree)
     (hs : A.starts ≠ []) (trash : σ) (ht : trash ∉ A.states) (w : List Nat) :
-    (A.complementRaw A.copyD trash).Lang w ↔ (∀ a ∈ w, a ∈ A.syms) ∧ ¬ A.Lang w := by
-  sorry
+    (A.complementRaw A.copyD trash).Lang w ↔ (∀ a ∈ w, a ∈ A.syms) ∧ ¬ A.Lang w :=
+  complementRaw_core A A.copyD hA hd hs trash ht
+    (mem_copyD_starts A hd) (fun q => mem_ofParts_finals _ _ _ q)
+    (mem_copyD_delta A hA hd he) w
 
 end ENFA
 end Pfl
